@@ -1,0 +1,173 @@
+//go:build verif
+
+package sio
+
+import (
+	"fmt"
+	"reflect"
+)
+
+// Exports of the unexported handler registries for the verification harness.
+// Nothing here changes behaviour; the file is compiled only with the `verif` tag.
+
+// VerifHandlerStore drives a handlerStore instantiated at a pointer type (all pointer
+// instantiations share one compiled body, so this runs the code of every lifecycle registry).
+type VerifHandlerStore struct{ s *handlerStore[*int] }
+
+func VerifNewHandlerStore() *VerifHandlerStore {
+	return &VerifHandlerStore{s: newHandlerStore[*int]()}
+}
+
+func (v *VerifHandlerStore) On(h *int)      { v.s.on(h) }
+func (v *VerifHandlerStore) Once(h *int)    { v.s.once(h) }
+func (v *VerifHandlerStore) OnSub(h *int)   { v.s.onSubEvent(h) }
+func (v *VerifHandlerStore) OffSub(h *int)  { v.s.offSubEvent(h) }
+func (v *VerifHandlerStore) OffSubs()       { v.s.offSubEvents() }
+func (v *VerifHandlerStore) Off(h ...*int)  { v.s.off(h...) }
+func (v *VerifHandlerStore) OffAll()        { v.s.offAll() }
+func (v *VerifHandlerStore) GetAll() []*int { return v.s.getAll() }
+func (v *VerifHandlerStore) Lens() (int, int, int) {
+	v.s.mu.Lock()
+	defer v.s.mu.Unlock()
+	return len(v.s.funcs), len(v.s.funcsOnce), len(v.s.subs)
+}
+func (v *VerifHandlerStore) ForEach(f func(h *int), concurrent bool) { v.s.forEach(f, concurrent) }
+
+// VerifEventStore drives an eventHandlerStore.
+type VerifEventStore struct{ s *eventHandlerStore }
+
+func VerifNewEventStore() *VerifEventStore {
+	return &VerifEventStore{s: newEventHandlerStore()}
+}
+
+func (v *VerifEventStore) On(ev string, f any) error {
+	h, err := newEventHandler(f)
+	if err != nil {
+		return err
+	}
+	v.s.on(ev, h)
+	return nil
+}
+
+func (v *VerifEventStore) Once(ev string, f any) error {
+	h, err := newEventHandler(f)
+	if err != nil {
+		return err
+	}
+	v.s.once(ev, h)
+	return nil
+}
+
+// Off passes `vals` through unchanged (a nil slice stays nil).
+func (v *VerifEventStore) Off(ev string, vals []reflect.Value) { v.s.off(ev, vals...) }
+func (v *VerifEventStore) OffAll()                             { v.s.offAll() }
+
+// GetAll returns the function values of the handlers an occurrence of `ev` would run.
+func (v *VerifEventStore) GetAll(ev string) []reflect.Value {
+	return verifRVs(v.s.getAll(ev))
+}
+
+func (v *VerifEventStore) Lens() (int, int) {
+	v.s.mu.Lock()
+	defer v.s.mu.Unlock()
+	return len(v.s.events), len(v.s.eventsOnce)
+}
+
+func verifRVs(hs []*eventHandler) []reflect.Value {
+	rvs := make([]reflect.Value, len(hs))
+	for i, h := range hs {
+		rvs[i] = h.rv
+	}
+	return rvs
+}
+
+// VerifNewServerSocket returns a server socket that has only its handler registries
+// (enough for the On*/Once*/Off* methods; nothing else may be called on it).
+func VerifNewServerSocket() ServerSocket {
+	return &serverSocket{
+		eventHandlers:         newEventHandlerStore(),
+		errorHandlers:         newHandlerStore[*ServerSocketErrorFunc](),
+		disconnectingHandlers: newHandlerStore[*ServerSocketDisconnectingFunc](),
+		disconnectHandlers:    newHandlerStore[*ServerSocketDisconnectFunc](),
+	}
+}
+
+// VerifEventOccurrence takes the handlers of one occurrence of `ev` from the event registry of
+// a *Namespace, server socket or client socket exactly as the dispatch code does (getAll).
+func VerifEventOccurrence(target any, ev string) ([]reflect.Value, error) {
+	switch t := target.(type) {
+	case *Namespace:
+		return verifRVs(t.eventHandlers.getAll(ev)), nil
+	case *serverSocket:
+		return verifRVs(t.eventHandlers.getAll(ev)), nil
+	case *clientSocket:
+		return verifRVs(t.eventHandlers.getAll(ev)), nil
+	}
+	return nil, fmt.Errorf("VerifEventOccurrence: unsupported target %T", target)
+}
+
+func verifFire[F any](s *handlerStore[*F], call func(f F)) int {
+	hs := s.getAll()
+	for _, h := range hs {
+		call(*h)
+	}
+	return len(hs)
+}
+
+// VerifLifecycleOccurrence runs one occurrence of a lifecycle event: takes the handlers with
+// getAll (as forEach does) and calls each, synchronously, with zero-valued arguments.
+// Returns the number of handlers run.
+func VerifLifecycleOccurrence(target any, family string) (int, error) {
+	switch t := target.(type) {
+	case *Namespace:
+		switch family {
+		case "connection":
+			return verifFire(t.connectionHandlers, func(f NamespaceConnectionFunc) { f(nil) }), nil
+		}
+	case *Server:
+		switch family {
+		case "newNamespace":
+			return verifFire(t.newNamespaceHandlers, func(f ServerNewNamespaceFunc) { f(nil) }), nil
+		case "anyConnection":
+			return verifFire(t.anyConnectionHandlers, func(f ServerAnyConnectionFunc) { f("", nil) }), nil
+		}
+	case *serverSocket:
+		switch family {
+		case "error":
+			return verifFire(t.errorHandlers, func(f ServerSocketErrorFunc) { f(nil) }), nil
+		case "disconnecting":
+			return verifFire(t.disconnectingHandlers, func(f ServerSocketDisconnectingFunc) { f("") }), nil
+		case "disconnect":
+			return verifFire(t.disconnectHandlers, func(f ServerSocketDisconnectFunc) { f("") }), nil
+		}
+	case *clientSocket:
+		switch family {
+		case "connect":
+			return verifFire(t.connectHandlers, func(f ClientSocketConnectFunc) { f() }), nil
+		case "connectError":
+			return verifFire(t.connectErrorHandlers, func(f ClientSocketConnectErrorFunc) { f(nil) }), nil
+		case "disconnect":
+			return verifFire(t.disconnectHandlers, func(f ClientSocketDisconnectFunc) { f("") }), nil
+		}
+	case *Manager:
+		switch family {
+		case "open":
+			return verifFire(t.openHandlers, func(f ManagerOpenFunc) { f() }), nil
+		case "ping":
+			return verifFire(t.pingHandlers, func(f ManagerPingFunc) { f() }), nil
+		case "error":
+			return verifFire(t.errorHandlers, func(f ManagerErrorFunc) { f(nil) }), nil
+		case "close":
+			return verifFire(t.closeHandlers, func(f ManagerCloseFunc) { f("", nil) }), nil
+		case "reconnect":
+			return verifFire(t.reconnectHandlers, func(f ManagerReconnectFunc) { f(0) }), nil
+		case "reconnectAttempt":
+			return verifFire(t.reconnectAttemptHandlers, func(f ManagerReconnectAttemptFunc) { f(0) }), nil
+		case "reconnectError":
+			return verifFire(t.reconnectErrorHandlers, func(f ManagerReconnectErrorFunc) { f(nil) }), nil
+		case "reconnectFailed":
+			return verifFire(t.reconnectFailedHandlers, func(f ManagerReconnectFailedFunc) { f() }), nil
+		}
+	}
+	return 0, fmt.Errorf("VerifLifecycleOccurrence: unsupported target %T / family %q", target, family)
+}
